@@ -1046,36 +1046,58 @@ def rule_pool_joins(ctx, rid, r):
         # fall back on name: receiver iterates the list the threads were appended to
         joins = [c for c in pool.own_calls() if isinstance(c.func, ast.Attribute) and c.func.attr == "join"]
     ctx.floor(rid, "thread join sites in the pool", len(joins), 1)
+    # path formulation (robust to where the joins are written): from every statement that starts a thread, every path
+    # to an exit of the pool - normal end, or any exception at the spawn, in the with-body (the yield) or later -
+    # passes a loop that joins the list the started threads are appended to
+    g = CFG(pool, may_raise=any_call_may_raise)
+    starters = [c for c in pool.own_calls() if m.reachable(list(m.callee_funcs(pool, c)), kinds=("call",)) & {t[0] for t in r.thread_sites}]
+    ctx.floor(rid, "thread start sites in the pool", len(starters), 1)
+    join_loops = {}
     for j in joins:
-        tries = [t for t in pool.own_nodes() if isinstance(t, ast.Try) and in_body(mod, j, t, "finalbody")
-                 and in_body(mod, y, t, "body")]
-        ok = bool(tries)
-        ctx.ob(rid, f"{pool.short}/join-in-finally", ok, loc(pool, j),
-               "workers are joined in a finally that covers the yield" if ok else
-               "join is not in a finally covering the yield: on an exception in the body the threads are abandoned",
-               norm(stmt_of(mod, j)))
+        fl = [n for n in pool.own_nodes() if isinstance(n, ast.For) and inside(mod, j, n)]
+        if fl and isinstance(fl[0].iter, ast.Name) and isinstance(j.func.value, ast.Name) and norm(fl[0].target) == j.func.value.id:
+            join_loops[j] = fl[0]
+    for sc in starters:
+        st = stmt_of(mod, sc)
+        # the list this thread is appended to
+        lst = None
+        if isinstance(st, ast.Expr) and isinstance(st.value, ast.Call) and isinstance(st.value.func, ast.Attribute) \
+                and st.value.func.attr == "append" and isinstance(st.value.func.value, ast.Name) and st.value.args and st.value.args[0] is sc:
+            lst = st.value.func.value.id
+        ok_l = lst is not None
+        ctx.ob(rid, f"{pool.short}/joins-all-started", ok_l, loc(pool, sc),
+               "every started thread is appended to the list that is joined" if ok_l else
+               "a started thread may not be in the joined list", norm(st))
+        if not ok_l:
+            continue
+        through = set()
+        for j, loop in join_loops.items():
+            if loop.iter.id == lst and not j.args and not j.keywords:
+                # the loop header node: reaching it means the join loop runs over the whole list
+                guards = [pn for pn in ast.walk(pool.node) if isinstance(pn, ast.If) and inside(mod, j, pn) and inside(mod, pn, loop)]
+                if not guards:
+                    through |= set(g.of(loop))
+        ok = bool(through)
+        witness = ""
+        if ok:
+            for sn in g.of(st):
+                if not g.must_pass(sn, through):
+                    ok = False
+                    witness = g.fmt_path(g.path(sn, {g.exit, g.raise_exit}, avoid=through))
+        ctx.ob(rid, f"{pool.short}/join-in-finally", ok, loc(pool, sc),
+               "on every path from a thread start to an exit of the pool (normal or exceptional) the workers are joined" if ok else
+               "join is not in a finally covering the yield: on an exception in the body the threads are abandoned "
+               "(a path from a thread start leaves the pool without joining the started threads)", norm(st), witness)
+    for j in joins:
         ok = not j.args and not j.keywords
         ctx.ob(rid, f"{pool.short}/join-no-timeout", ok, loc(pool, j), "join() without timeout" if ok else
                "join with a timeout can return while the worker still runs", norm(j))
+        tries = [t for t in pool.own_nodes() if isinstance(t, ast.Try) and in_body(mod, j, t, "finalbody")]
         guards = [p for t in tries for p in ast.walk(t) if isinstance(p, ast.If) and in_body(mod, p, t, "finalbody") and inside(mod, j, p)]
         ctx.ob(rid, f"{pool.short}/join-unconditional", not guards, loc(pool, j),
                "the join in the finally is unconditional" if not guards else
                f"the join is skipped under `if {norm(guards[0].test)[:40]}`: on that path (e.g. KeyboardInterrupt) run returns while calls "
                f"and store writes are still in flight", head(guards[0]) if guards else "")
-        # the loop joins every element of the list that every started thread was appended to
-        fl = [n for n in pool.own_nodes() if isinstance(n, ast.For) and inside(mod, j, n)]
-        ok = False
-        if fl and isinstance(fl[0].iter, ast.Name) and isinstance(j.func.value, ast.Name) and norm(fl[0].target) == j.func.value.id:
-            lst = fl[0].iter.id
-            apps = [c for c in pool.own_calls() if isinstance(c.func, ast.Attribute) and c.func.attr == "append"
-                    and is_name(c.func.value, lst)]
-            # every call that starts a thread is the argument of an append to that list
-            starters = [c for c in pool.own_calls() if m.reachable(list(m.callee_funcs(pool, c)), kinds=("call",)) & {t[0] for t in r.thread_sites}]
-            ok = bool(starters) and all(any(a.args and a.args[0] is s for a in apps) for s in starters)
-            # the list is created before the try
-        ctx.ob(rid, f"{pool.short}/joins-all-started", ok, loc(pool, j),
-               "every started thread is appended to the list that is joined" if ok else
-               "a started thread may not be in the joined list", norm(stmt_of(mod, j)))
     # thread helper starts and returns the thread (not daemon-and-forget)
     for c, call, tg in r.thread_sites:
         starts = [x for x in c.own_calls() if "threading.Thread.start" in ext_names(m, c, x)]
